@@ -195,10 +195,12 @@ def mtls_authenticate_xfcc(
 
     def authenticate(req: falcon.Request) -> AuthContext:
         header_value = req.get_header(_XFCC_HEADER)
-        if not header_value:
+        if header_value is None:
             # The client cannot fix this: the header is the proxy's to set.
             # Reporting it as a missing *credential* would send an operator
             # hunting for a certificate the caller already presented.
+            # A header that is present but zero-length is not "missing": it
+            # falls through to the empty-header rejection below.
             raise AuthFailure(AuthReason.PROXY_REQUIRED, f"Missing {_XFCC_HEADER} header")
         elements = _parse_xfcc(header_value)
         if not elements:
